@@ -224,7 +224,7 @@ def c04(run):
     mc_and_replay(run, "cmd1", 5 if q else 7, ALL_INV, ["direct", "stream"], cap=4000 if q else 40000)
     # then_stream: RequestBuilder's (sequential) and StreamBuilder's (flatten_unordered, modelled with its
     # ready-to-run queue and wrapped wakers)
-    mc_and_replay(run, "flat1", 5 if q else 7, ALL_INV, ["direct", "stream"], cap=2500 if q else 40000)
+    mc_and_replay(run, "flat1", 5 if q else 6, ALL_INV, ["direct", "stream"], cap=2500 if q else 40000)
     random_round(run, "cmd", run.seed, 800 if q else 8000, ["direct", "stream"], "cmd", 3 if q else 4, 16,
                  selftest=True)
     random_round(run, "mixed", run.seed + 1, 400 if q else 4000, ["direct"], "mixed", 2 if q else 3, 16)
@@ -246,7 +246,7 @@ def c07(run):
     mc_and_replay(run, "chan1", 6, ALL_INV, ["direct", "stream", "core"], cap=2000 if q else 20000)
     # flatten_unordered keeps the waker it was polled with: the model-checked (strict) model evicts a task
     # stuck in it, the code does not (known deviation D12, admitted by the trace specification and counted)
-    mc_and_replay(run, "flat1", 5 if q else 7, ALL_INV, ["direct", "core"], cap=2500 if q else 40000)
+    mc_and_replay(run, "flat1", 5 if q else 6, ALL_INV, ["direct", "core"], cap=2500 if q else 40000)
     # the executor protocol itself (eviction test, woken flag, queue discipline), on executions of the
     # repository's own tests and of a harness round
     proto_mc(run)
